@@ -198,3 +198,33 @@ Example mt_periodic_shift_witness :
   mt_periodic_sq (0, 0) (9 # 10, 0) == mt_euclid_sq (0, 0) (mt_shift (9 # 10, 0) 1 0)
   /\ mt_periodic_sq (0, 0) (9 # 10, 0) < mt_euclid_sq (0, 0) (9 # 10, 0).
 Proof. split; vm_compute; reflexivity. Qed.
+
+(* triangle inequality of the coded periodic metric on the unit cell, in the same squared form as
+   mt_euclid_triangle_sq (sqrt z <= sqrt x + sqrt y).  Route: take the images attaining d(a,b) and d(b,c),
+   apply the Euclidean triangle inequality to a, b - k, c - k - m, and the every-image lower bound for d(a,c). *)
+Lemma mt_euclid_shift_shift : forall b c (k1 k2 m1 m2 : Z),
+  mt_euclid_sq (mt_shift b k1 k2) (mt_shift c (k1 + m1) (k2 + m2)) == mt_euclid_sq b (mt_shift c m1 m2).
+Proof.
+  intros [bx by'] [cx cy] k1 k2 m1 m2. unfold mt_euclid_sq, mt_shift, mt_sq. cbn [fst snd].
+  rewrite !inject_Z_plus. ring.
+Qed.
+
+Lemma mt_periodic_triangle_sq : forall a b c, mt_in_unit a -> mt_in_unit b -> mt_in_unit c ->
+  let x := mt_periodic_sq a b in let y := mt_periodic_sq b c in let z := mt_periodic_sq a c in
+  z <= x + y \/ (z - x - y) * (z - x - y) <= 4 * x * y.
+Proof.
+  intros a b c Ha Hb Hc.
+  destruct (mt_periodic_image_attained a b Ha Hb) as (k1 & k2 & _ & _ & Ex).
+  destruct (mt_periodic_image_attained b c Hb Hc) as (m1 & m2 & _ & _ & Ey).
+  pose proof (mt_periodic_le_image a c (k1 + m1) (k2 + m2) Ha Hc) as Hz.
+  pose proof (mt_euclid_triangle_sq a (mt_shift b k1 k2) (mt_shift c (k1 + m1) (k2 + m2))) as Ht.
+  cbv zeta in Ht. rewrite mt_euclid_shift_shift in Ht. rewrite <- Ex, <- Ey in Ht.
+  pose proof (mt_periodic_nonneg a b) as Hx0. pose proof (mt_periodic_nonneg b c) as Hy0.
+  cbv zeta.
+  set (x := mt_periodic_sq a b) in *. set (y := mt_periodic_sq b c) in *. set (z := mt_periodic_sq a c) in *.
+  set (z' := mt_euclid_sq a (mt_shift c (k1 + m1) (k2 + m2))) in *.
+  destruct (Qlt_le_dec (x + y) z) as [Hgt | Hle]; [right | left; exact Hle].
+  destruct Ht as [Ht | Ht]; [lra |].
+  assert (H1 : 0 <= z - x - y) by lra. assert (H2 : z - x - y <= z' - x - y) by lra.
+  nra.
+Qed.
